@@ -28,9 +28,16 @@ class TopologicalSortPass(ir.passes.InPlacePass):
             graph_likes.extend(graph_like.subgraphs())
         original_orders = [list(graph_like) for graph_like in graph_likes]
 
-        model.graph.sort()
-        for function in model.functions.values():
-            function.sort()
+        try:
+            model.graph.sort()
+            for function in model.functions.values():
+                function.sort()
+        except ValueError:
+            # A later graph or function contains a cycle: the pass fails as a whole.
+            # Put back the order of everything that was already sorted, then re-raise.
+            for original_nodes, graph_like in zip(original_orders, graph_likes):
+                graph_like.extend(original_nodes)
+            raise
 
         # Compare node orders to determine if any changes were made
         modified = False
